@@ -135,7 +135,7 @@ theorem C05_composite_ignored_unassigned (p : Program) (hchk : PlanCheck.checkPr
       ∀ (i : Nat) (tf : FieldInfo) (tty : Ty), tfs.toList[i]? = some (tf, tty) →
         ∃ f, plans.toList[i]? = some f ∧
           (∀ nm, f = .skip nm → (erase.eraseFields ws).lookup tf.name = some (erase (zeroVal p.conv.env 63 tty))) ∧
-          FieldOutcome p.conv.env (CtorSig p) sfs.toList fs tf tty
+          FieldOutcome p.conv.env (CtorSig p) gm.source (.struct fs) tf tty
             (erase.eraseFields (zeroVal.zeroFields p.conv.env 63 tfs.toList)) (erase.eraseFields ws) f := by
   obtain ⟨hnd, ws, hv', himg⟩ := convert_struct_onto p (checkProgU_sound p hchk) fuel m gm plans upd hm hb sfs tfs hs ht fs hwt
     cs n v' n' hev
@@ -177,5 +177,121 @@ example : WT iProgram.conv.env (.struct iSrc) (.struct iFields) :=
   WT_struct_of_basics (tfs := iFields) rfl
     (by intro q hq; simp [iSrc] at hq; rcases hq with rfl | rfl <;> exact ⟨_, rfl⟩)
     (by intro q hq; simp [iFields, Fields.toList] at hq; rcases hq with rfl | rfl <;> exact ⟨_, rfl⟩)
+
+/-! ### The composite theorem for goverter:map paths
+
+`checkProgU` accepts mapped fields whose source is an arbitrary path of field names (`goverter:map A.B.C Target`, `.` = the
+empty path = the whole source) that type-checks from the source struct type (`PlanCheck.walkTy`), with the nil guards,
+the guard flag and the leaf-is-pointer flag the types dictate.  `Spec.PathVal v path r` is the statement's notion of "the
+value named by the path": following the field names through structs, dereferencing pointers on the way, `none` as soon as
+a pointer on the way is nil.  For every checked program, every struct conversion method, every well-typed source and fuel,
+the `i`-th target field `tf : tty`, mapped to `path`, receives a value `a : sty` (`Spec.FieldSrc`) such that
+ (a) a nil pointer on the way (`PathVal src path none`) ⇒ `a = nil`;
+ (b) the path names `x` (`PathVal src path (some x)`) ⇒ `a = x`, or — pointers crossed, `x` not a pointer — `a` is a pointer to `x`;
+and the field holds the conversion of `a` to the field type (onto the zero value), unless a zero-value guard applies and `a`
+is zero (then the field keeps the zero value).  (For update methods the same clauses are in `C10_composite`, with the
+previous value of the field in place of the zero value.) -/
+
+open Gv.Typing Gv.Spec Gv.Sound in
+theorem C05_composite_paths (p : Program) (hchk : PlanCheck.checkProgU p = true)
+    (fuel m : Nat) (gm : GenMethod) (plans : FieldPlans) (upd : Bool)
+    (hm : p.methods[m]? = some gm) (hb : gm.body = some (.convert (.structc plans upd)))
+    (sfs tfs : Fields) (hs : under p.conv.env gm.source = .struct sfs) (ht : under p.conv.env gm.target = .struct tfs)
+    (fs : List (S × Val)) (hwt : WT p.conv.env (.struct fs) gm.source) (cs : List Val) (n : Nat) (v' : Val) (n' : Nat)
+    (hev : Eval.callMethod p fuel m (.struct fs) cs n = .ok (v', n'))
+    (i : Nat) (tf : FieldInfo) (tty : Ty) (hi : tfs.toList[i]? = some (tf, tty))
+    (tg : S) (path : List S) (derefs : List Bool) (guarded leafIsPtr : Bool) (cv : Conv) (zero : ZeroCheck)
+    (hf : plans.toList[i]? = some (.mapped tg path derefs guarded leafIsPtr cv zero)) :
+    ∃ ws sty a, v' = .struct ws ∧ FieldSrc p.conv.env gm.source (.struct fs) path sty a ∧
+      (PathVal (.struct fs) path none → a = .nil) ∧
+      (∀ x, PathVal (.struct fs) path (some x) → a = x ∨ ∃ l, a = .ptr l x) ∧
+      ((zero = .none ∨ ¬ IsZeroValue a) →
+        ∃ y, (erase.eraseFields ws).lookup tf.name = some y ∧
+          ImgOnto p.conv.env (CtorSig p) sty tty a (erase (zeroVal p.conv.env 63 tty)) y) ∧
+      ((zero = .check ∧ IsZeroValue a) →
+        (erase.eraseFields ws).lookup tf.name = some (erase (zeroVal p.conv.env 63 tty))) := by
+  obtain ⟨hnd, ws, hv', himg⟩ := convert_struct_onto p (checkProgU_sound p hchk) fuel m gm plans upd hm hb sfs tfs hs ht fs hwt
+    cs n v' n' hev
+  obtain ⟨f, hf', hout⟩ := himg.outcome i tf tty hi
+  rw [hf] at hf'
+  cases hf'
+  obtain ⟨sty, a, hfs, h1, h2⟩ := hout.2 tg path derefs guarded leafIsPtr cv zero rfl
+  have hz : (erase.eraseFields (zeroVal.zeroFields p.conv.env 63 tfs.toList)).lookup tf.name =
+      some (erase (zeroVal p.conv.env 63 tty)) := by
+    rw [lookup_eraseFields, zeroFields_lookup_at _ 63 tfs.toList i tf tty hnd hi]; rfl
+  rw [hz] at h1 h2
+  exact ⟨ws, sty, a, hv', hfs, hfs.of_none, fun x hx => hfs.of_some hx, h1, h2⟩
+
+/-! non-vacuity: `goverter:map Nested.Inner.Name Name` with `Nested` a pointer; the leaf `Name` is a string behind a nil
+guard, so the field conversion receives a `*string` (nil when `Nested` is nil) -/
+
+def pInner : Fields := .cons { name := "Name".toList, exported := true, embedded := false, pkg := [] } (.basic .string) .nil
+def pNested : Fields := .cons { name := "Inner".toList, exported := true, embedded := false, pkg := [] } (.struct pInner) .nil
+def pSource : Fields := .cons { name := "Nested".toList, exported := true, embedded := false, pkg := [] } (.ptr (.struct pNested)) .nil
+def pTarget : Fields := .cons { name := "Name".toList, exported := true, embedded := false, pkg := [] } (.ptr (.basic .string)) .nil
+
+def pPlans : FieldPlans :=
+  .cons (.mapped "Name".toList ["Nested".toList, "Inner".toList, "Name".toList] [false, true, false] true false
+    (.ptrPtr (.basic .string) .ident) .none) .nil
+
+def pMethod : GenMethod :=
+  { name := "Convert".toList, source := .struct pSource, target := .struct pTarget, args := [], contexts := [],
+    returnError := false, updateTarget := false, explicit := true, dirty := false, originPath := [], originName := [],
+    cfg := { common := {} }, body := some (.convert (.structc pPlans false)) }
+
+def pProgram : Program :=
+  { conv := { env := [], common := {}, outputPkg := [], customs := [], extend := [], orc := {} }, methods := [pMethod] }
+
+example : PlanCheck.checkProgU pProgram = true := by decide
+
+def pSrcNil : List (S × Val) := [("Nested".toList, .nil)]
+def pSrcSome : List (S × Val) :=
+  [("Nested".toList, .ptr (.src 1) (.struct [("Inner".toList, .struct [("Name".toList, .basic "x".toList)])]))]
+
+/-- nil `Nested`: the field is nil -/
+example : Eval.callMethod pProgram 10 0 (.struct pSrcNil) [] 0 = .ok (.struct [("Name".toList, .nil)], 0) := by
+  unfold Eval.callMethod
+  simp [pProgram, pMethod, pPlans, pSrcNil, pTarget, evalConv, evalFields, walk, fieldOf, setField, normStruct,
+    zeroVal, zeroVal.zeroFields, under, Fields.toList, Val.isAbsent, pure, StateT.pure, List.lookup]
+
+/-- non-nil `Nested`: the field is a (new) pointer to the name -/
+example : Eval.callMethod pProgram 10 0 (.struct pSrcSome) [] 0 =
+    .ok (.struct [("Name".toList, .ptr (.fresh 1) (.basic "x".toList))], 2) := by
+  unfold Eval.callMethod
+  simp [pProgram, pMethod, pPlans, pSrcSome, pTarget, evalConv, evalFields, walk, fieldOf, setField, normStruct,
+    zeroVal, zeroVal.zeroFields, under, Fields.toList, Val.isAbsent, pure, StateT.pure, bind, StateT.bind, freshLoc, List.lookup]
+
+open Gv.Spec in
+example : PathVal (.struct pSrcNil) ["Nested".toList, "Inner".toList, "Name".toList] none :=
+  .field (x := .nil) rfl .ptrNil
+
+open Gv.Spec in
+example : PathVal (.struct pSrcSome) ["Nested".toList, "Inner".toList, "Name".toList] (some (.basic "x".toList)) :=
+  .field (x := .ptr (.src 1) (.struct [("Inner".toList, .struct [("Name".toList, .basic "x".toList)])])) rfl
+    (.ptrField (x := .struct [("Name".toList, .basic "x".toList)]) rfl (.field (x := .basic "x".toList) rfl .here))
+
+open Gv.Typing in
+example : WT pProgram.conv.env (.struct pSrcNil) (.struct pSource) :=
+  WT_struct_one (tfs := pSource) rfl (by
+    intro f ty hf
+    simp [pSource, Fields.toList] at hf
+    obtain ⟨_, rfl⟩ := hf
+    exact .nilPtr (e := .struct pNested) rfl)
+
+open Gv.Typing in
+example : WT pProgram.conv.env (.struct pSrcSome) (.struct pSource) :=
+  WT_struct_one (tfs := pSource) rfl (by
+    intro f ty hf
+    simp [pSource, Fields.toList] at hf
+    obtain ⟨_, rfl⟩ := hf
+    refine .ptr (e := .struct pNested) rfl (WT_struct_one (tfs := pNested) rfl ?_)
+    intro f ty hf
+    simp [pNested, Fields.toList] at hf
+    obtain ⟨_, rfl⟩ := hf
+    refine WT_struct_one (tfs := pInner) rfl ?_
+    intro f ty hf
+    simp [pInner, Fields.toList] at hf
+    obtain ⟨_, rfl⟩ := hf
+    exact .basic (k := .string) rfl)
 
 end Gv.Props.C05
